@@ -111,7 +111,8 @@ void MaxSize::rollFiles()
 bool MaxSize::writeCheck( const detail::LogMsg&, const std::string& msg_text)
 {
 
-   return mCurrentFilesize + msg_text.length() < mMaxFileSize;
+   // the message is written with a trailing newline character
+   return mCurrentFilesize + msg_text.length() + 1 < mMaxFileSize;
 } // MaxSize::writeCheck
 
 
@@ -128,7 +129,8 @@ bool MaxSize::writeCheck( const detail::LogMsg&, const std::string& msg_text)
 void MaxSize::written( const detail::LogMsg&, const std::string& msg_text)
 {
 
-   mCurrentFilesize += msg_text.length();
+   // the message was written with a trailing newline character
+   mCurrentFilesize += msg_text.length() + 1;
 
 } // MaxSize::written
 
